@@ -984,6 +984,11 @@ def oracle_C17(results, metas, st):
     out = []
     for r, m in zip(results, metas):
         if not isinstance(r['cxx'], list): continue
+        txt = dump(r['cxx'])
+        if '(integrand_object_not_invoked ' in txt:
+            out.append(viol('the function object stored in the integrand the user handed over was not the one invoked (its own call counter disagrees with the calls made)', [r['case']])); continue
+        if '(map_object_not_invoked ' in txt:
+            out.append(viol('the channel map object stored in the integrand the user handed over was not the one invoked (its own call counter disagrees with the calls made)', [r['case']])); continue
         info = m.get('info', {})
         fmt = FMTS[r['case'][1]]
         for item in find_items(r['cxx'], 'run'):
